@@ -19,4 +19,17 @@ PROPS = {
             "usize is 64-bit",
         ],
     },
+    "C06": {
+        "level": "proof",
+        "title": "DVB-S2 parity-check matrices conform to ETSI EN 302 307-1",
+        "verus": [
+            {"unit": "dvbs2_dims", "template": "dvbs2/unit_dims.rs.in", "rlimit": 60, "canary": True},
+        ],
+        "kani": {"quick": [], "thorough": []},
+        "witness": "c06",
+        "assumptions": [
+            "the standard's tables (n, k, q, degree profile) as transcribed in specs/dvbs2/std.rs.in",
+            "usize is 64-bit",
+        ],
+    },
 }
